@@ -72,6 +72,14 @@ def check(res):
             out.append(V("followup-trace-differs", f"{tag}: messages {cmds}", tag=tag))
         if tag == "followup-run":
             names = [d.d["name"] for d in c.of("doc") if d.d["doc"].get("name") != "interruptions"]
+            if res.case.get("re", {}).get("preprocessors"):
+                # SupplementalData adds baseline / monitor / flyer streams to every run: compare the primary stream only
+                prim = {d.d["doc"]["uid"] for d in c.of("doc") if d.d["name"] == "descriptor" and d.d["doc"].get("name") == "primary"}
+                names = [
+                    d.d["name"]
+                    for d in c.of("doc")
+                    if d.d["name"] in ("start", "stop") or (d.d["name"] == "descriptor" and d.d["doc"]["uid"] in prim) or (d.d["name"] == "event" and d.d["doc"].get("descriptor") in prim)
+                ]
             if names != ["start", "descriptor", "event", "stop"]:
                 out.append(V("followup-trace-differs", f"{tag}: documents {names}", tag=tag))
     end = v.of("end")
